@@ -110,6 +110,35 @@ func StringRunes(s string, t Token) [][2]int {
 	return res
 }
 
+// neighbours returns the spellings of the glyphs before and after a glyph written as a one-letter name of
+// the constructed fonts or as a glyph number.
+func neighbours(x, kind string) (lo, hi string, ok bool) {
+	switch {
+	case kind == "ident" && len(x) == 1 && (x[0] > 'A' && x[0] < 'Z' || x[0] > 'a' && x[0] < 'n'):
+		return string(x[0] - 1), string(x[0] + 1), true
+	case kind == "int" && len(x) <= 2 && x[0] >= '0' && x[0] <= '9':
+		n := 0
+		for _, c := range x {
+			if c < '0' || c > '9' {
+				return "", "", false
+			}
+			n = 10*n + int(c-'0')
+		}
+		if n < 2 || n > 40 {
+			return "", "", false
+		}
+		return itoa(n - 1), itoa(n + 1), true
+	}
+	return "", "", false
+}
+
+func itoa(n int) string {
+	if n >= 10 {
+		return string(rune('0'+n/10)) + string(rune('0'+n%10))
+	}
+	return string(rune('0' + n))
+}
+
 // Unmapped is a rune no constructed font maps; Illegal is a character the language has no use for.
 const (
 	Unmapped = "☃"
@@ -117,7 +146,8 @@ const (
 )
 
 // MutationKinds are the single-token mutations of a valid description.
-var MutationKinds = []string{"delete", "wrong", "unterminated", "illegal", "trunc", "dup", "swap", "unmapped"}
+var MutationKinds = []string{"delete", "wrong", "unterminated", "illegal", "trunc", "dup", "swap", "unmapped",
+	"dupfar", "widen", "reverse", "selfrange"}
 
 // Numbers are boundary literals put in place of every number of a description (mutation "number").
 var Numbers = []string{"0", "255", "256", "32767", "32768", "65535", "65536", "65537", "2147483648", "4294967296",
@@ -170,6 +200,30 @@ func Mutate(s string, toks []Token, kind string, i, j int) (string, bool) {
 		}
 		u := toks[i+1]
 		return s[:t.Start] + s[u.Start:u.End] + s[t.End:u.Start] + s[t.Start:t.End] + s[u.End:], true
+	case "dupfar": // the glyph once more, two tokens later (a set with a repeated glyph)
+		if (t.Kind != "ident" && t.Kind != "int" && t.Kind != "string") || i+2 >= len(toks) {
+			return "", false
+		}
+		u := toks[i+2]
+		return s[:u.Start] + s[t.Start:t.End] + " " + s[u.Start:], true
+	case "widen", "reverse", "selfrange":
+		// a glyph written as a range that contains it, followed by the glyph itself (overlap); the same
+		// with the range reversed; the glyph as the range from itself to itself
+		lo, hi, ok := neighbours(s[t.Start:t.End], t.Kind)
+		if !ok {
+			return "", false
+		}
+		x := s[t.Start:t.End]
+		var repl string
+		switch kind {
+		case "widen":
+			repl = lo + " - " + hi + " " + x
+		case "reverse":
+			repl = hi + " - " + lo + " " + x + " " + x
+		default:
+			repl = x + " - " + x
+		}
+		return s[:t.Start] + repl + s[t.End:], true
 	case "unmapped":
 		if t.Kind != "string" {
 			return "", false
